@@ -253,7 +253,7 @@ SPECS.append({
   H("C02", DB, "Reload", "both", ["compared"], "two independently built databases, NLP on", "re-loading the same content"),
   H("C02", DB, "Suggestions", "both", ["compared"], "3-word candidate set, all orders", "did-you-mean reproducibility"),
   H("C02", "internal/nlp", "TFIDFSearch", "both", ["compared"], "one model, 4 queries (3-4 distinct vocabulary terms), query-side and dot-product maps <=3 entries in all orders", "repeated TF-IDF search bit-identical"),
-  H("C02", "internal/nlp", "TFIDF", "thorough", ["compared"], "3 documents, three-term float sums, maps <=3 entries in all orders", "norms / similarities bit-identical", max_paths=400000),
+  H("C02", "internal/nlp", "TFIDF", "both", ["compared"], "3 documents, three-term float sums; the second model is built with every map walked forwards or backwards (independently per range)", "norms / similarities bit-identical for independently built models"),
  ],
  "manifest": {"text": "Self-composed bounded model checking with the runtime's map iteration order as the explored nondeterminism (all permutations for maps up to k entries); outputs of two runs must coincide position by position and bit by bit.",
               "note": "Trusted: executor's map model, z3, go/ssa. Bounds: maps <= 3-4 entries are permuted; larger ones use insertion order (reported)."},
@@ -271,6 +271,7 @@ SPECS.append({
   H("C05", DB, "PairsMonitored", "both", ["searched", "done"], "2 requests through the monitoring wrapper; 6 option sets x 5 queries each", "monitored wrapper's own projection", synctest=True),
   H("C05", DB, "MonitoredReload", "both", ["searched", "done"], "search (3 entry points); replace through LoadDatabaseWithMonitoring or UpdateDatabase; search", "no cached answer survives a replacement made through the monitoring entry point", synctest=True),
   H("C05", "internal/cache", "SmallCache", "both", ["hit", "miss", "done"], "SearchCache of capacity 1-2; 5 steps of put / get over 3 requests", "an answer found is the one last stored for that very request (eviction churn)"),
+  H("C05", DB, "KeyGrid", "both", ["searched", "done"], "two requests; limit in {1,10,101} x threshold in {0,1,-30} x term cap in {0,2,12} each", "integer option fields are kept apart in the key", synctest=True),
   H("C05", "internal/cache", "LongAnswer", "both", ["done"], "answers of 1 / 99 / 100 / 101 / 150 results", "cached answers come back whole"),
   H("C05", DB, "OffOn", "both", ["searched", "done"], "search; optionally disable; replace / invalidate / nothing; optionally search while off; enable; search", "no entry outlives a replacement made while the cache is off (also C01 on the cached path)", synctest=True),
   H("C05", DB, "Hist3", "thorough", ["searched", "done"], "search, one of 6 operations, search", "no entry outlives invalidation / replacement; disabled cache is bypassed", synctest=True),
